@@ -577,6 +577,272 @@ theorem findRef_terminates {σ : Store} (hσ : Acyclic σ) (hc : Closed σ) :
         refine ⟨f + 1, t, ?_⟩
         simp [findRef, he, findRefHead_eq, hh, hji, hf]
 
+/-! ## path compression -/
+
+section Compression
+open Relation
+
+/-- a path of at least one step, as `TransGen` of the child relation -/
+theorem reach_tg {σ : Store} {i j k : Nat} (he : Edge σ i j) (hr : Reach σ j k) :
+    TransGen (fun b a => Edge σ a b) k i := by
+  induction hr generalizing i with
+  | refl _ => exact TransGen.single he
+  | step e _ ih => exact TransGen.tail (ih e) he
+
+theorem acc_irrefl {α : Sort _} {r : α → α → Prop} {a : α} (h : Acc r a) : ¬ r a a := by
+  induction h with
+  | intro x _ ih => intro hx; exact ih x hx hx
+
+/-- no cycles in an acyclic store -/
+theorem no_cycle {σ : Store} (hσ : Acyclic σ) {i j : Nat} (he : Edge σ i j) (hr : Reach σ j i) : False :=
+  acc_irrefl ((WellFounded.transGen hσ).apply i) (reach_tg he hr)
+
+/-- `UnionFind::find` WITH path compression: it returns what `find_ref`
+returns, and every edge of the compressed store is a path of the old one —
+so the compressed store is acyclic as well. -/
+theorem findCompress_spec : ∀ (f : Nat) (σ : Store) (i : Nat) (t : Ty) (σ' : Store), Acyclic σ →
+    findCompress f σ i = some (t, σ') →
+    findRef f σ i = some t ∧
+    ∀ k v, Edge σ' k v → TransGen (fun b a => Edge σ a b) v k := by
+  intro f
+  induction f with
+  | zero => intro σ i t σ' _ h; simp [findCompress] at h
+  | succ f ih =>
+    intro σ i t σ' hσ h
+    rw [findRef_succ]
+    unfold findCompress at h
+    cases he : σ[i]? with
+    | none => simp [he] at h
+    | some e =>
+      simp only [he] at h ⊢
+      rw [findHead_eq] at h
+      rw [findRefHead_eq]
+      cases hj : head e with
+      | none =>
+        simp only [hj] at h ⊢
+        simp at h
+        obtain ⟨rfl, rfl⟩ := h
+        exact ⟨rfl, fun k v hkv => TransGen.single hkv⟩
+      | some j =>
+        simp only [hj] at h ⊢
+        by_cases hji : j = i
+        · simp only [hji, if_true] at h ⊢
+          simp at h
+          obtain ⟨rfl, rfl⟩ := h
+          exact ⟨rfl, fun k v hkv => TransGen.single hkv⟩
+        · simp only [hji, if_false] at h ⊢
+          cases hc : findCompress f σ j with
+          | none => simp [hc] at h
+          | some p =>
+            obtain ⟨t1, σ1⟩ := p
+            simp [hc] at h
+            obtain ⟨rfl, rfl⟩ := h
+            obtain ⟨hfr, hedges⟩ := ih σ j t1 σ1 hσ hc
+            refine ⟨hfr, ?_⟩
+            intro k v hkv
+            by_cases hki : k = i
+            · subst hki
+              have hv := edge_set_self hkv
+              have hij : Edge σ k j := ⟨e, he, by rw [out_of_head_ne hj hji]; simp⟩
+              obtain ⟨r, hr, hs, hh⟩ := findRef_spec _ _ _ _ hfr
+              rcases hh with hh | hh
+              · by_cases hrk : r = k
+                · subst hrk; exact absurd hr (fun hr => no_cycle hσ hij hr)
+                · rw [out_of_head_ne hh hrk] at hv; simp at hv; subst hv
+                  exact reach_tg hij hr
+              · rw [out_of_head_none hh, ← out_of_head_none (i := r) hh] at hv
+                exact reach_tg hij (hr.trans (Reach.single ⟨t1, hs, hv⟩))
+            · exact hedges k v ((edge_set_ne hki).1 hkv)
+
+theorem findCompress_acyclic {f : Nat} {σ σ' : Store} {i : Nat} {t : Ty} (hσ : Acyclic σ)
+    (h : findCompress f σ i = some (t, σ')) : Acyclic σ' ∧ findRef f σ i = some t := by
+  obtain ⟨h1, h2⟩ := findCompress_spec f σ i t σ' hσ h
+  exact ⟨Subrelation.wf (fun {a b} hab => h2 b a hab) (WellFounded.transGen hσ), h1⟩
+
+end Compression
+
+/-! ## deep traversals terminate -/
+
+/-- the children a deep traversal walks into -/
+def kids : Ty → List Ty
+  | .recordVar _ _ ts => ts
+  | .record _ ts => ts
+  | .func ps r => ps ++ [r]
+  | .name _ as => as
+  | _ => []
+
+theorem subVarsL_kids_of_root {t : Ty} : subVarsL (kids t) = below t := by
+  cases t <;> simp [kids, below, subVars, subVarsL, subVarsL_append]
+
+theorem resolveType_mono {f : Nat} {σ : Store} {t t' : Ty} (h : resolveType f σ t = some t') :
+    resolveType (f + 1) σ t = some t' := by
+  unfold resolveType at h ⊢
+  split
+  · rename_i x hx; simp only [hx] at h; exact findRef_mono _ _ _ _ h
+  · rename_i hx; simp only [hx] at h; exact h
+
+theorem walk_of_kids {f : Nat} {σ : Store} {t t' : Ty} (hr : resolveType f σ t = some t')
+    (hk : walkL f σ (kids t') = some ()) : walk (f + 1) σ t = some () := by
+  unfold walk
+  simp only [hr]
+  cases t' <;> simp_all [kids]
+
+theorem walk_kids {f : Nat} {σ : Store} {t : Ty} (h : walk (f + 1) σ t = some ()) :
+    ∃ t', resolveType f σ t = some t' ∧ (kids t' = [] ∨ walkL f σ (kids t') = some ()) := by
+  unfold walk at h
+  split at h
+  · simp at h
+  · rename_i t' hr
+    refine ⟨t', hr, ?_⟩
+    cases t' <;> simp_all [kids]
+
+theorem walk_mono : ∀ (f : Nat),
+    (∀ (σ : Store) (t : Ty), walk f σ t = some () → walk (f + 1) σ t = some ()) ∧
+    (∀ (σ : Store) (ts : List Ty), walkL f σ ts = some () → walkL (f + 1) σ ts = some ()) := by
+  intro f
+  induction f with
+  | zero => constructor <;> intro σ t h <;> simp [walk, walkL] at h
+  | succ f ih =>
+    obtain ⟨ih1, ih2⟩ := ih
+    constructor
+    · intro σ t h
+      obtain ⟨t', hr, hk⟩ := walk_kids h
+      rcases hk with hk | hk
+      · refine walk_of_kids (resolveType_mono hr) ?_
+        rw [hk]; simp [walkL]
+      · exact walk_of_kids (resolveType_mono hr) (ih2 _ _ hk)
+    · intro σ ts h
+      cases ts with
+      | nil => simp [walkL]
+      | cons t ts =>
+        simp only [walkL] at h ⊢
+        split at h
+        · simp at h
+        · rename_i hw
+          rw [ih1 _ _ hw]
+          exact ih2 _ _ h
+
+theorem walk_mono' {f g : Nat} {σ : Store} {t : Ty} (h : walk f σ t = some ()) (hfg : f ≤ g) :
+    walk g σ t = some () := by
+  induction hfg with
+  | refl => exact h
+  | step _ ih => exact (walk_mono _).1 _ _ ih
+
+theorem walkL_mono' {f g : Nat} {σ : Store} {ts : List Ty} (h : walkL f σ ts = some ()) (hfg : f ≤ g) :
+    walkL g σ ts = some () := by
+  induction hfg with
+  | refl => exact h
+  | step _ ih => exact (walk_mono _).2 _ _ ih
+
+theorem walkL_append {σ : Store} : ∀ (as bs : List Ty) (f g : Nat), walkL f σ as = some () →
+    walkL g σ bs = some () → walkL (f + g) σ (as ++ bs) = some ()
+  | [], bs, f, g, _, h2 => by simpa using walkL_mono' h2 (Nat.le_add_left g f)
+  | a :: as, bs, 0, g, h1, _ => by simp [walkL] at h1
+  | a :: as, bs, f + 1, g, h1, h2 => by
+    simp only [walkL] at h1
+    split at h1
+    · simp at h1
+    · rename_i hw
+      have : f + 1 + g = (f + g) + 1 := by omega
+      rw [this]
+      simp only [List.cons_append, walkL]
+      rw [walk_mono' hw (Nat.le_add_right f g)]
+      exact walkL_append as bs f g h1 h2
+
+theorem walk_congr_head {f : Nat} {σ : Store} {t : Ty} {x : Nat} (h : head t = some x) :
+    walk f σ t = walk f σ (.var x) := by
+  cases f with
+  | zero => simp [walk]
+  | succ f =>
+    unfold walk
+    have : resolveType f σ t = resolveType f σ (.var x) := by
+      unfold resolveType
+      rw [resolveHead_eq, resolveHead_eq, h]; rfl
+    rw [this]
+
+/-- a variable from which every deep traversal returns -/
+def Walks (σ : Store) (v : Nat) : Prop := ∃ f, walk f σ (.var v) = some ()
+
+mutual
+theorem walk_of_vars (σ : Store) : ∀ (t : Ty), (∀ v ∈ subVars t, Walks σ v) → ∃ f, walk f σ t = some ()
+  | .var x, h => h x (by simp [subVars])
+  | .intVar x s, h => by
+    obtain ⟨f, hf⟩ := h x (by simp [subVars])
+    exact ⟨f, by rw [walk_congr_head (x := x) rfl]; exact hf⟩
+  | .floatVar x, h => by
+    obtain ⟨f, hf⟩ := h x (by simp [subVars])
+    exact ⟨f, by rw [walk_congr_head (x := x) rfl]; exact hf⟩
+  | .recordVar x ns ts, h => by
+    obtain ⟨f, hf⟩ := h x (by simp [subVars])
+    exact ⟨f, by rw [walk_congr_head (x := x) rfl]; exact hf⟩
+  | .record ns ts, h => by
+    obtain ⟨f, hf⟩ := walkL_of_vars σ ts (by simpa [subVars] using h)
+    exact ⟨f + 1, walk_of_kids (t' := .record ns ts) (by simp [resolveType, resolveHead_eq, head]) hf⟩
+  | .func ps r, h => by
+    obtain ⟨f1, hf1⟩ := walkL_of_vars σ ps (fun v hv => h v (by simp [subVars, hv]))
+    obtain ⟨f2, hf2⟩ := walk_of_vars σ r (fun v hv => h v (by simp [subVars, hv]))
+    refine ⟨f1 + (f2 + 2) + 1, walk_of_kids (t' := .func ps r) (by simp [resolveType, resolveHead_eq, head]) ?_⟩
+    simp only [kids]
+    refine walkL_append ps [r] f1 (f2 + 2) hf1 ?_
+    simp only [walkL]
+    rw [walk_mono' hf2 (Nat.le_succ f2)]
+  | .name n as, h => by
+    obtain ⟨f, hf⟩ := walkL_of_vars σ as (by simpa [subVars] using h)
+    exact ⟨f + 1, walk_of_kids (t' := .name n as) (by simp [resolveType, resolveHead_eq, head]) hf⟩
+  | .explicitVar n, _ => ⟨1, by simp [walk, resolveType, resolveHead_eq, head]⟩
+  | .unit, _ => ⟨1, by simp [walk, resolveType, resolveHead_eq, head]⟩
+  | .never, _ => ⟨1, by simp [walk, resolveType, resolveHead_eq, head]⟩
+theorem walkL_of_vars (σ : Store) : ∀ (ts : List Ty), (∀ v ∈ subVarsL ts, Walks σ v) → ∃ f, walkL f σ ts = some ()
+  | [], _ => ⟨1, by simp [walkL]⟩
+  | t :: ts, h => by
+    obtain ⟨f1, hf1⟩ := walk_of_vars σ t (fun v hv => h v (by simp [subVarsL, hv]))
+    obtain ⟨f2, hf2⟩ := walkL_of_vars σ ts (fun v hv => h v (by simp [subVarsL, hv]))
+    refine ⟨max f1 f2 + 1, ?_⟩
+    simp only [walkL]
+    rw [walk_mono' hf1 (Nat.le_max_left f1 f2)]
+    exact walkL_mono' hf2 (Nat.le_max_right f1 f2)
+end
+
+theorem reach_lt {σ : Store} (hc : Closed σ) {i k : Nat} (hr : Reach σ i k) (hi : i < σ.length) :
+    k < σ.length := by
+  induction hr with
+  | refl _ => exact hi
+  | step e _ ih => exact ih (hc _ _ e)
+
+/-- in an acyclic store in which every variable exists, a deep traversal
+returns from every variable -/
+theorem all_walk {σ : Store} (hσ : Acyclic σ) (hc : Closed σ) :
+    ∀ i, i < σ.length → ∀ k, Reach σ i k → Walks σ k := by
+  intro i
+  induction hσ.apply i with
+  | intro i _ ih =>
+    intro hi k hk
+    rcases hk.head with rfl | ⟨j, hij, hjk⟩
+    · -- the variable itself: look it up, then walk into what was found
+      obtain ⟨f0, t', hf0⟩ := findRef_terminates hσ hc i hi
+      obtain ⟨r, hr, hs, hh⟩ := findRef_spec _ _ _ _ hf0
+      have hkids : ∀ v ∈ subVarsL (kids t'), Walks σ v := by
+        intro v hv
+        rw [subVarsL_kids_of_root] at hv
+        have hrv : Edge σ r v := ⟨t', hs, by
+          rcases hh with hh | hh
+          · rw [out_of_head_self hh]; exact hv
+          · rw [out_of_head_none hh]; exact hv⟩
+        rcases hr.head with rfl | ⟨j, hij, hjr⟩
+        · exact ih v hrv (hc _ _ hrv) v (Reach.refl _)
+        · exact ih j hij (hc _ _ hij) v (hjr.trans (Reach.single hrv))
+      obtain ⟨f1, hf1⟩ := walkL_of_vars σ (kids t') hkids
+      refine ⟨max f0 f1 + 1, walk_of_kids (t' := t') ?_ (walkL_mono' hf1 (Nat.le_max_right f0 f1))⟩
+      simp only [resolveType, resolveHead_eq, head]
+      exact findRef_mono' hf0 (Nat.le_max_left f0 f1)
+    · exact ih j hij (hc _ _ hij) k hjk
+
+/-- deep traversals (`Type::display`, `TypeInfo::convert`, … — resolve, then
+walk into every child) return from every type over an acyclic store -/
+theorem walk_terminates {σ : Store} (hσ : Acyclic σ) (hc : Closed σ) (t : Ty)
+    (ht : ∀ v ∈ subVars t, v < σ.length) : ∃ f, walk f σ t = some () :=
+  walk_of_vars σ t (fun v hv => all_walk hσ hc v (ht v hv) v (Reach.refl _))
+
 /-! ## the unchanged tree: a record variable bound without occurs check -/
 
 /-- the unchanged tree: the four arms of `unify_inner` that bind a RECORD
